@@ -95,7 +95,7 @@ func TestReplayCovers(t *testing.T) {
 	if err := json.Unmarshal(raw, &scs); err != nil {
 		t.Fatal(err)
 	}
-	monitoring.SetMetricFactory(monitoring.InertMetricFactory{})
+	monitoring.SetMetricFactory(rec)
 	const origin = "log.example/replay"
 	lsk, lvk, _ := note.GenerateKey(nil, origin)
 	ls, _ := note.NewSigner(lsk)
@@ -116,11 +116,22 @@ func TestReplayCovers(t *testing.T) {
 		return b
 	}
 	kinds := map[uint64]error{1: nil, 2: ErrUnknownLog, 3: ErrNoValidSignature, 4: ErrOldSizeInvalid, 5: ErrCheckpointStale, 6: ErrRootMismatch, 7: ErrInvalidProof}
+	pad := func(b []byte, lines uint64) []byte {
+		// extra signature lines by unknown keys: ignored by note.Open but counted against its limit
+		for i := uint64(1); i < lines; i++ {
+			b = append(b, []byte(fmt.Sprintf("\u2014 junk%d AAAAAAAA\n", i))...)
+		}
+		return b
+	}
 	ok := 0
-	for _, sc := range scs {
+	for idx, sc := range scs {
 		m := sc.Model
 		known, stored := rB(m, "r.known"), rB(m, "r.stored")
 		prevSize, nextSize, oldSize := rU(m, "r.prevSize"), rU(m, "r.nextSize"), rU(m, "r.oldSize")
+		if prevSize > 64 || nextSize > 64 {
+			fmt.Printf("SCENARIO %d %s unreplayable (tree sizes too large to build)\n", idx, sc.Cover)
+			continue
+		}
 		max := prevSize
 		if nextSize > max {
 			max = nextSize
@@ -128,6 +139,7 @@ func TestReplayCovers(t *testing.T) {
 		hsA, rootA := buildTree(t, "A", max)
 		_, rootB := buildTree(t, "B", max)
 		store := inmemory.NewPersistence()
+		rec.reset()
 		w, err := New(Opts{Persistence: store, Signers: []note.Signer{ws}, KnownLogs: map[string]LogInfo{"L": {SigV: lv, Origin: origin, Hasher: rfc6962.DefaultHasher}}})
 		if err != nil {
 			t.Fatal(err)
@@ -136,10 +148,11 @@ func TestReplayCovers(t *testing.T) {
 		if !known {
 			id = "not-configured"
 		}
+		prevValid, nextValid := rB(m, "r.prevValid"), rB(m, "r.nextValid")
 		var prevRaw []byte
 		if known && stored {
-			if rB(m, "r.prevValid") {
-				prevRaw = sign(ls, prevSize, rootA(prevSize))
+			if prevValid {
+				prevRaw = pad(sign(ls, prevSize, rootA(prevSize)), rU(m, "r.prevSigLines"))
 			} else {
 				prevRaw = []byte("this is not a checkpoint of the log\n")
 			}
@@ -150,7 +163,6 @@ func TestReplayCovers(t *testing.T) {
 			_ = wo.Close()
 		}
 		// the submitted checkpoint
-		var nextRaw []byte
 		sameRoot := rB(m, "r.sameRoot")
 		vcOK := rB(m, "r.vcOK")
 		nextRoot := rootA(nextSize)
@@ -164,10 +176,10 @@ func TestReplayCovers(t *testing.T) {
 			nextRoot = rootB(nextSize) // a fork: no proof can verify
 		}
 		signer := ls
-		if known && !rB(m, "r.nextValid") {
+		if known && !nextValid {
 			signer = wrong
 		}
-		nextRaw = sign(signer, nextSize, nextRoot)
+		nextRaw := pad(sign(signer, nextSize, nextRoot), rU(m, "r.nextSigLines"))
 		// the proof
 		var pf [][]byte
 		plen := rU(m, "r.proofLen")
@@ -198,23 +210,134 @@ func TestReplayCovers(t *testing.T) {
 			switch {
 			case uerr == nil:
 				gotOut = 2
-				// an accepted update hands out a note that verifies under log and witness keys
-				if n, err := note.Open(out, note.VerifierList(lv, ws.Verifier())); err != nil || len(n.Sigs) != 2 {
-					t.Errorf("REPLAY MISMATCH cover=%s: accepted result does not verify under log and witness keys: %v", sc.Cover, err)
-					continue
-				}
 			case stored && bytes.Equal(out, prevRaw):
 				gotOut = 1
 			default:
 				gotOut = 3
 			}
 		}
+		accepted := uerr == nil
+		after, aerr := w.GetCheckpoint(id)
+
+		// ---- native oracles: the properties, stated over the real artefacts ----
+		var failed []string
+		fail := func(s string) { failed = append(failed, s) }
+		if accepted && !(known && nextValid) {
+			fail("C02")
+		}
+		if accepted && stored {
+			if !(prevValid && oldSize == prevSize && nextSize >= prevSize && (nextSize != prevSize || sameRoot) && (nextSize == prevSize || prevSize == 0 || vcOK)) {
+				fail("C01")
+			}
+		}
+		if !accepted {
+			unchanged := (stored && aerr == nil && bytes.Equal(after, prevRaw)) || (!stored && aerr != nil)
+			if !unchanged || !(out == nil || (stored && bytes.Equal(out, prevRaw))) {
+				fail("C03")
+			}
+		}
+		if accepted {
+			n, err := note.Open(out, note.VerifierList(lv, ws.Verifier()))
+			nn, err2 := note.Open(nextRaw, note.VerifierList(lv))
+			if err != nil || err2 != nil || len(n.Sigs) != 2 || n.Text != nn.Text || aerr != nil || !bytes.Equal(after, out) {
+				fail("C04")
+			}
+			if aerr == nil {
+				if _, _, _, err := log.ParseCheckpoint(after, origin, lv); err != nil {
+					fail("C08")
+				}
+			}
+		}
+		// C09: first matching rule (claimed cases only)
+		claimed, want := true, uint64(0)
+		switch {
+		case !known:
+			want = 2
+		case !nextValid:
+			want = 3
+		case !stored:
+			want, claimed = 1, oldSize == 0 && plen == 0
+		case !prevValid:
+			claimed = false
+		case oldSize > nextSize:
+			want = 4
+		case oldSize != prevSize:
+			want = 5
+		case nextSize == prevSize && !sameRoot:
+			want = 6
+		case prevSize == 0 && nextSize > 0:
+			claimed = false
+		default:
+			verdict := vcOK
+			if nextSize == prevSize {
+				verdict = plen == 0
+			}
+			if verdict {
+				want = 1
+			} else {
+				want = 7
+			}
+		}
+		if want == 1 && rU(m, "r.nextSigLines")+1 > 100 {
+			claimed = false
+		}
+		if claimed && gotKind != want {
+			fail("C09")
+		}
+		if claimed && (want >= 4 && want <= 7) && !(stored && bytes.Equal(out, prevRaw)) {
+			fail("C09")
+		}
+		// C20: counters tell the truth
+		wantC := map[string]int{}
+		if known {
+			wantC["witness_update_request"] = 1
+		}
+		if accepted {
+			wantC["witness_update_success"] = 1
+		}
+		if uerr == ErrInvalidProof {
+			wantC["witness_update_invalid_consistency"] = 1
+		}
+		if uerr == ErrRootMismatch {
+			wantC["witness_update_inconsistent_checkpoints"] = 1
+		}
+		for _, name := range []string{"witness_update_request", "witness_update_success", "witness_update_invalid_consistency", "witness_update_inconsistent_checkpoints"} {
+			if rec.counts[name+"|"+id] != wantC[name] {
+				fail("C20")
+				break
+			}
+		}
+
 		wantKind, wantOut := rU(m, "r.kind"), rU(m, "r.outKind")
-		if gotKind != wantKind || gotOut != wantOut {
+		match := gotKind == wantKind && gotOut == wantOut
+		fmt.Printf("SCENARIO %d %s match=%v oracles=%s\n", idx, sc.Cover, match, strings.Join(failed, ","))
+		if strings.HasPrefix(sc.Cover, "violation:") {
+			continue
+		}
+		if !match {
 			t.Errorf("REPLAY MISMATCH cover=%s: engine predicted (kind %d, bytes %d), real code gave (kind %d, bytes %d, err=%v); model=%v", sc.Cover, wantKind, wantOut, gotKind, gotOut, uerr, m)
 			continue
 		}
 		ok++
 	}
-	fmt.Printf("REPLAYED %d/%d cover witnesses against the real build\n", ok, len(scs))
+	fmt.Printf("REPLAYED %d cover witnesses against the real build\n", ok)
+}
+
+// recFactory records counter increments (installed once per test process).
+type recFactory struct{ counts map[string]int }
+
+var rec = &recFactory{counts: map[string]int{}}
+
+func (r *recFactory) reset() { r.counts = map[string]int{} }
+func (r *recFactory) NewCounter(name, help string, labelNames ...string) monitoring.Counter {
+	return recCounter{r: r, name: name}
+}
+
+type recCounter struct {
+	r    *recFactory
+	name string
+}
+
+func (c recCounter) Inc(labelVals ...string) {
+	c.r.counts[c.name+"|"+strings.Join(labelVals, "|")]++
 }
